@@ -75,6 +75,38 @@ func c02Gen(t *rapid.T) qScenario {
 type c02Point struct {
 	K int         `json:"k"`
 	V vos.Variant `json:"variant"`
+	// NoEv: the stop comes right after operation k-1 instead of right before operation k, i.e. what the
+	// queue did between the two without touching the file system (target and bounce-target calls) has
+	// not happened yet. Same image, fewer facts established before the stop.
+	NoEv bool `json:"events_not_yet,omitempty"`
+}
+
+// cut is the highest sequence stamp that counts as "before the stop".
+func (p c02Point) cut() int64 {
+	if p.NoEv {
+		return int64(p.K) - 1
+	}
+	return int64(p.K)
+}
+
+// c02EventSeqs: operation indices at which the run did something observable between two file-system operations.
+func c02EventSeqs(h *qHistory) map[int]bool {
+	at := map[int]bool{}
+	for _, e := range h.Events {
+		at[int(e.Seq)] = true
+	}
+	for _, a := range h.Attempts {
+		at[int(a.StartSeq)] = true
+		if a.Committed {
+			at[int(a.CommitSeq)] = true
+		}
+	}
+	for _, rep := range h.Reports {
+		if rep.Committed {
+			at[int(rep.CommitSeq)] = true
+		}
+	}
+	return at
 }
 
 // c02Case is what is saved as replay: the scenario and the crash path.
@@ -84,10 +116,13 @@ type c02Case struct {
 	Depth    int        `json:"depth"`
 }
 
-func c02Points(log []vos.Op) []c02Point {
+func c02Points(log []vos.Op, evAt map[int]bool) []c02Point {
 	var pts []c02Point
 	for k := 0; k <= len(log); k++ {
 		for _, drop := range []bool{false, true} {
+			if k > 0 && evAt[k] {
+				pts = append(pts, c02Point{K: k, V: vos.Variant{Torn: -1, DropUnsynced: drop}, NoEv: true})
+			}
 			pts = append(pts, c02Point{K: k, V: vos.Variant{Torn: -1, DropUnsynced: drop}})
 			if k < len(log) && log[k].Kind == "write" {
 				n := len(log[k].Data)
@@ -429,9 +464,9 @@ func c02Explore(c c02Case) (vs []ev.V) {
 			}
 		}
 	}
-	pts := c02Points(log0)
+	pts := c02Points(log0, c02EventSeqs(h0))
 	for _, p1 := range pts {
-		if len(c.Path) >= 1 && (c.Path[0].K != p1.K || c.Path[0].V != p1.V) {
+		if len(c.Path) >= 1 && c.Path[0] != p1 {
 			continue
 		}
 		n++
@@ -442,16 +477,19 @@ func c02Explore(c c02Case) (vs []ev.V) {
 		}
 		metas := c02ReadMetas(img)
 		pre := newC02Pre()
-		pre.absorb(sc, h0, int64(p1.K), nil)
+		pre.absorb(sc, h0, p1.cut(), nil)
 		depth2 := c.Depth >= 2 && p1.V.Torn < 0
 		vos.Reset(depth2)
 		h1 := qRecover(img, sc, 3*time.Hour)
 		log1 := vos.Log()
 		vos.Reset(false)
 		where := fmt.Sprintf("crash before op %d/%d %s torn=%d drop-unsynced=%v", p1.K, len(log0), c02OpName(log0, p1.K), p1.V.Torn, p1.V.DropUnsynced)
+		if p1.NoEv {
+			where = fmt.Sprintf("crash right after op %d/%d %s (before anything the queue does between it and op %d %s) drop-unsynced=%v", p1.K-1, len(log0), c02OpName(log0, p1.K-1), p1.K, c02OpName(log0, p1.K), p1.V.DropUnsynced)
+		}
 		found := c02Invariants(sc, pre, img, metas, h1, where)
-		c02Rec.Count("crash-images", nil, ev.Info{Key: fmt.Sprintf("%s|%d|%v", c02ScenarioKey(sc), p1.K, p1.V), Nontrivial: !quiescent[int64(p1.K)] || p1.V.Torn >= 0,
-			Classes: []string{"depth=1", fmt.Sprintf("drop=%v", p1.V.DropUnsynced)}})
+		c02Rec.Count("crash-images", nil, ev.Info{Key: fmt.Sprintf("%s|%d|%v|%v", c02ScenarioKey(sc), p1.K, p1.V, p1.NoEv), Nontrivial: !quiescent[int64(p1.K)] || p1.V.Torn >= 0,
+			Classes: []string{"depth=1", fmt.Sprintf("drop=%v", p1.V.DropUnsynced), fmt.Sprintf("between-ops=%v", p1.NoEv)}})
 		report([]c02Point{p1}, found)
 		if os.Getenv("VERIF_DEBUG") != "" && len(c.Path) >= 1 {
 			fmt.Println("=== log0")
@@ -483,11 +521,11 @@ func c02Explore(c c02Case) (vs []ev.V) {
 			for id, mx := range pre.startedMax {
 				attemptBase[id] = mx
 			}
-			for _, p2 := range c02Points(log1) {
+			for _, p2 := range c02Points(log1, c02EventSeqs(h1)) {
 				if p2.V.Torn >= 0 {
 					continue // torn variants only at depth 1
 				}
-				if len(c.Path) >= 2 && (c.Path[1].K != p2.K || c.Path[1].V != p2.V) {
+				if len(c.Path) >= 2 && c.Path[1] != p2 {
 					continue
 				}
 				n++
@@ -501,12 +539,12 @@ func c02Explore(c c02Case) (vs []ev.V) {
 					panic(err)
 				}
 				pre2 := newC02Pre()
-				pre2.absorb(sc, h0, int64(p1.K), nil)
-				pre2.absorb(sc, h1, int64(p2.K), attemptBase)
+				pre2.absorb(sc, h0, p1.cut(), nil)
+				pre2.absorb(sc, h1, p2.cut(), attemptBase)
 				metas2 := c02ReadMetas(img2)
 				h2 := qRecover(img2, sc, 3*time.Hour)
-				where2 := where + fmt.Sprintf("; then crash of the recovery run before op %d/%d %s drop-unsynced=%v", p2.K, len(log1), c02OpName(log1, p2.K), p2.V.DropUnsynced)
-				c02Rec.Count("crash-images", nil, ev.Info{Key: fmt.Sprintf("%s|%d|%v|%d|%v", c02ScenarioKey(sc), p1.K, p1.V, p2.K, p2.V), Nontrivial: true, Classes: []string{"depth=2"}})
+				where2 := where + fmt.Sprintf("; then crash of the recovery run before op %d/%d %s drop-unsynced=%v between-ops=%v", p2.K, len(log1), c02OpName(log1, p2.K), p2.V.DropUnsynced, p2.NoEv)
+				c02Rec.Count("crash-images", nil, ev.Info{Key: fmt.Sprintf("%s|%d|%v|%v|%d|%v|%v", c02ScenarioKey(sc), p1.K, p1.V, p1.NoEv, p2.K, p2.V, p2.NoEv), Nontrivial: true, Classes: []string{"depth=2"}})
 				found2 := c02Invariants(sc, pre2, img2, metas2, h2, where2)
 				if len(found2) > 0 {
 					// schedules of concurrent goroutines are not owned here, so a replay may interleave differently:
